@@ -120,6 +120,8 @@ func (c *spliceInsert) Data() []byte {
 
 	if c.eventCancelIndicator {
 		bytes[4] |= 0x80
+		// a cancelled event carries nothing after the indicator
+		return bytes[:5]
 	}
 
 	bytes[5] = 0x0F // reserved
